@@ -4,8 +4,10 @@ import (
 	"context"
 	"flag"
 	"fmt"
+	"math"
 	"os"
 	"runtime"
+	"runtime/debug"
 	"strings"
 	"sync"
 	"sync/atomic"
@@ -136,6 +138,7 @@ type world struct {
 	returnedAll atomic.Int64 // log calls (any) that returned
 	enqReturned atomic.Int64 // returned calls that certainly enqueued a line
 	stop        atomic.Bool
+	stopAt      atomic.Int64 // producers stop themselves once this many log calls have returned
 	stopCh      chan struct{}
 	stopOnce    sync.Once
 
@@ -167,6 +170,21 @@ func (w *world) tick() uint64 { return w.clock.Add(1) }
 
 func (w *world) setStop() {
 	w.stopOnce.Do(func() { w.stop.Store(true); close(w.stopCh) })
+}
+
+// shouldStop is checked by every logging goroutine before each call. After Shutdown
+// was called only a bounded number of further calls may be started (nobody empties
+// the buffer once the writer is gone), and the bound must not depend on another
+// goroutine being scheduled in time.
+func (w *world) shouldStop() bool {
+	if w.stop.Load() {
+		return true
+	}
+	if w.returnedAll.Load() >= w.stopAt.Load() {
+		w.setStop()
+		return true
+	}
+	return false
 }
 
 // quiescent: no producer can make progress on its own.
@@ -342,7 +360,7 @@ func (p *producer) runPhase(phase int, nops int) {
 	}
 	name := fmt.Sprintf("g%d", p.id)
 	for ops := 0; ops < nops; {
-		if w.stop.Load() {
+		if w.shouldStop() {
 			return
 		}
 		p.pace(ops)
@@ -401,7 +419,7 @@ func (p *producer) runPhase(phase int, nops int) {
 			if r.Chance(1, 8) {
 				n = r.Range(10, 60)
 			}
-			for i := 0; i < n && !w.stop.Load(); i++ {
+			for i := 0; i < n && !w.shouldStop(); i++ {
 				p.logLine(phase, s, text, certain(s))
 				ops++
 			}
@@ -418,7 +436,7 @@ func (p *producer) runPhase(phase int, nops int) {
 			}
 			x := p.recent[r.Intn(len(p.recent))]
 			n := r.Range(1, 3)
-			for i := 0; i < n && !w.stop.Load(); i++ {
+			for i := 0; i < n && !w.shouldStop(); i++ {
 				p.logLine(phase, x.site, x.text, certain(x.site))
 				ops++
 			}
@@ -426,7 +444,7 @@ func (p *producer) runPhase(phase int, nops int) {
 			i := r.Intn(len(w.sharedSites))
 			s := w.sharedSites[i]
 			n := r.Range(1, 4)
-			for j := 0; j < n && !w.stop.Load(); j++ {
+			for j := 0; j < n && !w.shouldStop(); j++ {
 				p.logLine(phase, s, fmt.Sprintf("sh%d", i), certain(s))
 				ops++
 			}
@@ -447,7 +465,7 @@ func (p *producer) runPhase(phase int, nops int) {
 			p.colSeq++
 			text := fmt.Sprintf("%sk%d", name, p.colSeq)
 			n := r.Range(2, 5)
-			for i := 0; i < n && !w.stop.Load(); i++ {
+			for i := 0; i < n && !w.shouldStop(); i++ {
 				s := s1
 				if i%2 == 1 {
 					s = s2
@@ -489,7 +507,7 @@ func (p *producer) tracerBlock(phase int) int {
 		// the calls fall back to plain lines (filtered by level like any other)
 		nid := strings.Replace(tid, "T", "N", 1)
 		for i, x := range own {
-			if w.stop.Load() {
+			if w.shouldStop() {
 				break
 			}
 			p.logLine(phase, x.site, fmt.Sprintf("%s#%d", nid, i), w.certainlyEnabled(phase, pkg, siteLvl(x.site)))
@@ -536,7 +554,7 @@ func (p *producer) tracerBlock(phase int) int {
 	if len(trace) > 0 {
 		rec.Site, rec.Text = trace[len(trace)-1].Site, trace[len(trace)-1].Text
 	}
-	if w.stop.Load() {
+	if w.shouldStop() {
 		return nl + 1
 	}
 	p.state.Store(stInCall)
@@ -698,6 +716,7 @@ func initialCfg(sc *scenario) levelCfg {
 func runScenario(sc scenario) *world {
 	w := &world{sc: sc, stopCh: make(chan struct{}), shutDone: make(chan struct{})}
 	w.firstTrigAtEnq.Store(-1)
+	w.stopAt.Store(math.MaxInt64)
 	w.ad = &recAdapter{w: w}
 	if sc.Procs > 0 {
 		runtime.GOMAXPROCS(sc.Procs)
@@ -792,20 +811,45 @@ func runScenario(sc scenario) *world {
 	var spinStop atomic.Bool
 	var spinWG sync.WaitGroup
 	doShutdown := func() {
+		if sc.GCStress {
+			// frequent collections over a pointer-rich heap: goroutines that allocate
+			// (the writer allocates a timer per drained line) are drafted for mark work
+			ballast := make([][]*int, 1024)
+			for i := range ballast {
+				ballast[i] = make([]*int, 1024)
+				for j := range ballast[i] {
+					if j%8 == 0 {
+						ballast[i][j] = new(int)
+					}
+				}
+			}
+			old := debug.SetGCPercent(1)
+			defer func() { debug.SetGCPercent(old); runtime.KeepAlive(ballast) }()
+		}
 		for i := 0; i < sc.Spinners; i++ {
 			spinWG.Add(1)
-			go func() {
+			go func(i int) {
 				defer spinWG.Done()
 				x := 0
+				var keep [][]byte
 				for !spinStop.Load() {
 					x++
+					if sc.GCStress && i%2 == 0 {
+						keep = append(keep, make([]byte, 2048))
+						if len(keep) > 256 {
+							keep = keep[:0]
+						}
+					}
 				}
-				_ = x
-			}()
+				_, _ = x, keep
+			}(i)
 		}
 		w.ad.mu.Lock()
 		w.pendingAtShut = w.enqReturned.Load() - w.ad.written
 		w.ad.mu.Unlock()
+		if sc.Shutdown == "mid" {
+			w.stopAt.Store(w.returnedAll.Load() + int64(sc.ShutExtra))
+		}
 		w.shutCall = w.tick()
 		log.Shutdown()
 		w.shutRet = w.tick()
@@ -841,64 +885,78 @@ func runScenario(sc scenario) *world {
 		}()
 	}
 
-	// --- init lines (flag-derived configuration) and calibration lines (everything
-	// enabled; they tell the oracle which file:line is which call site)
-	for ph := 0; ph < 2; ph++ {
-		if ph == 1 {
-			w.applyCfg(w.phases[1].Cfg)
+	// The rest of the controller runs in its own goroutine: if the logger stops
+	// emptying the buffer while lines are still queued, the producers' last calls block
+	// for ever; the scenario must then still be judged on what was recorded.
+	ctlDone := make(chan struct{})
+	go func() {
+		defer close(ctlDone)
+		// --- init lines (flag-derived configuration) and calibration lines (everything
+		// enabled; they tell the oracle which file:line is which call site)
+		for ph := 0; ph < 2; ph++ {
+			if ph == 1 {
+				w.applyCfg(w.phases[1].Cfg)
+			}
+			tag := []string{"ini", "cal"}[ph]
+			for s := 0; s < nSites; s++ {
+				if w.shouldStop() {
+					break
+				}
+				w.ctl.logLine(ph, s, fmt.Sprintf("%s%d", tag, s), w.certainlyEnabled(ph, sitePkg(s), siteLvl(s)))
+			}
 		}
-		tag := []string{"ini", "cal"}[ph]
-		for s := 0; s < nSites; s++ {
+		w.ctl.state.Store(stBarrier)
+
+		// --- phases
+		for ph := 2; ph < len(w.phases); ph++ {
 			if w.stop.Load() {
 				break
 			}
-			w.ctl.logLine(ph, s, fmt.Sprintf("%s%d", tag, s), w.certainlyEnabled(ph, sitePkg(s), siteLvl(s)))
+			w.transition.Store(true)
+			w.applyCfg(w.phases[ph].Cfg)
+			var fstop atomic.Bool
+			var fdone chan struct{}
+			if f := w.phases[ph].Flip; f != nil {
+				fdone = make(chan struct{})
+				go w.flipper(f, &fstop, fdone)
+			}
+			close(w.phaseStart[ph])
+			w.transition.Store(false)
+			w.phaseWG[ph].Wait()
+			if fdone != nil {
+				fstop.Store(true)
+				<-fdone
+			}
 		}
-	}
-	w.ctl.state.Store(stBarrier)
-
-	// --- phases
-	for ph := 2; ph < len(w.phases); ph++ {
-		if w.stop.Load() {
-			break
-		}
-		w.transition.Store(true)
-		w.applyCfg(w.phases[ph].Cfg)
-		var fstop atomic.Bool
-		var fdone chan struct{}
-		if f := w.phases[ph].Flip; f != nil {
-			fdone = make(chan struct{})
-			go w.flipper(f, &fstop, fdone)
-		}
-		close(w.phaseStart[ph])
 		w.transition.Store(false)
-		w.phaseWG[ph].Wait()
-		if fdone != nil {
-			fstop.Store(true)
-			<-fdone
+		if sc.Shutdown != "mid" {
+			w.setStop() // nothing is running any more; releases producers of skipped phases
+			doShutdown()
+		} else {
+			// all producers finished before the shutdown moment was reached
+			w.setStop()
+			<-w.shutDone
 		}
-	}
-	w.transition.Store(false)
-	if sc.Shutdown != "mid" {
-		w.setStop() // nothing is running any more; releases producers of skipped phases
-		doShutdown()
-	} else {
-		// all producers finished before the shutdown moment was reached
-		w.setStop()
+		close(trigStop)
+		<-trigDone
+		// producers must all be able to finish (after Shutdown at most
+		// ShutExtra+producers lines are logged, far fewer than the buffer holds)
+		prodWG.Wait()
+	}()
+	stuck := make(chan struct{})
+	go func() {
 		<-w.shutDone
-	}
-	close(trigStop)
-	<-trigDone
-
-	// producers must all be able to finish (after Shutdown at most ShutExtra+producers
-	// lines are logged, far fewer than the buffer holds)
-	fin := make(chan struct{})
-	go func() { prodWG.Wait(); close(fin) }()
+		select {
+		case <-ctlDone:
+		case <-time.After(15 * time.Second):
+			close(stuck)
+		}
+	}()
 	select {
-	case <-fin:
-	case <-time.After(30 * time.Second):
+	case <-ctlDone:
+	case <-stuck:
 		w.stuckAfterShut = true
-		fmt.Fprintln(os.Stderr, "h_log: producers still blocked 30 s after Shutdown returned")
+		fmt.Fprintln(os.Stderr, "h_log: log calls still blocked 15 s after Shutdown returned")
 	}
 	return w
 }
